@@ -215,12 +215,22 @@ pub struct Want {
 }
 
 pub fn observe_glob(id: u64, e: &str, sigma: &[u32], want: &Want, max_states: usize) -> Value {
+    observe_glob_by(id, e, "new", sigma, want, max_states)
+}
+
+/// `route`: how the glob under observation comes into being - `new` (Glob::new), `own` (Glob::new, then
+/// into_owned) or `parsed` (str::parse)
+pub fn observe_glob_by(id: u64, e: &str, route: &str, sigma: &[u32], want: &Want, max_states: usize) -> Value {
     let mut rec = json!({"id": id, "kind": "glob", "e": cps(e), "elen": e.len(),
         "outcome": "ok", "ekind": "", "panic": "", "espans": [], "qpanic": ""});
     if want.rules {
         wax::verif::install_rule_sink();
     }
-    let built = guarded(|| Glob::new(e));
+    let built = guarded(|| match route {
+        "own" => Glob::new(e).map(Glob::into_owned),
+        "parsed" => e.parse::<Glob<'static>>(),
+        _ => Glob::new(e),
+    });
     if want.rules {
         let span = |s: Option<(usize, usize)>| s.map_or(json!([-1, -1]), |(a, n)| json!([a, n]));
         rec["rtrace"] = wax::verif::take_rule_visits()
@@ -528,7 +538,7 @@ pub fn run(args: &[String]) {
                                             .unwrap_or_default();
                                         observe_any(id, &members, case["mode"].as_str().unwrap_or("text"), sigma, max_states)
                                     },
-                                    _ => observe_glob(id, &from_cps(&case["e"]), sigma, want, max_states),
+                                    _ => observe_glob_by(id, &from_cps(&case["e"]), case["mode"].as_str().unwrap_or("new"), sigma, want, max_states),
                                 };
                                 let mut rec = rec;
                                 if rec.get("drop").is_some() || (want.only_exhaustive && rec["outcome"] != "ok") {
